@@ -13,6 +13,7 @@ package resolver
 
 import (
 	"context"
+	"crypto"
 	"fmt"
 	"math/rand"
 	"net"
@@ -124,6 +125,8 @@ func vC02AuthCase(t *testing.T, tr *vC02Trace, g *vC02Gen, zin *vC02Zone, useNSE
 	var recsN []vC02Rec
 	var recs3 []vC02Rec3
 	var genuine []bool
+	var signedBy []int  // NSEC branch only, see below
+	foreignZone := ""
 	params := vC02Params{iter: []uint16{0, 0, 1}[r.Intn(3)], salt: []string{"", "ab"}[r.Intn(2)]}
 	kind := "full"
 	pick := func() bool {
@@ -176,7 +179,74 @@ func vC02AuthCase(t *testing.T, tr *vC02Trace, g *vC02Gen, zin *vC02Zone, useNSE
 				polluted = "made-up"
 			}
 		}
-		r.Shuffle(len(recsN), func(i, j int) { recsN[i], recsN[j] = recsN[j], recsN[i]; genuine[i], genuine[j] = genuine[j], genuine[i] })
+		// records that do NOT carry a signature of the zone's key (signedBy: 0 = the zone's key, 1 = another
+		// zone's key with that zone as RRSIG signer, 2 = no RRSIG at all): a child zone's chain replayed under
+		// the child's key (owners inside the signer zone), a sibling zone's chain under the sibling's key
+		// (owners outside), an in-zone record shipped without a signature
+		signedBy = make([]int, len(recsN))
+		owned := func(n vC02Name) bool {
+			for _, rc := range recsN {
+				if vC02Key(rc.owner) == vC02Key(n) {
+					return true
+				}
+			}
+			return false
+		}
+		if polluted == "" && r.Intn(2) == 0 {
+			switch r.Intn(6) {
+			case 0, 1, 2: // child zone below one of the delegations
+				var cuts []vC02Node
+				for _, nd := range z.nodes {
+					if vC02Has(nd.types, dns.TypeNS) && !vC02Has(nd.types, dns.TypeSOA) {
+						cuts = append(cuts, nd)
+					}
+				}
+				if len(cuts) > 0 {
+					nd := cuts[r.Intn(len(cuts))]
+					child := g.genZone(nd.name, 2+r.Intn(3))
+					foreignZone = vC02Pres(child.apex)
+					for _, rc := range child.nsecChain() {
+						if !owned(rc.owner) && r.Intn(4) > 0 {
+							rc.note = "child"
+							recsN = append(recsN, rc)
+							genuine = append(genuine, false)
+							signedBy = append(signedBy, 1)
+							polluted = "child-signed"
+						}
+					}
+				}
+			case 3: // sibling zone
+				sib := append([]byte(nil), z.apex[0]...)
+				sib[len(sib)-1] ^= 1
+				sz := g.genZone(vC02Child(sib, z.apex[1:]), 2)
+				foreignZone = vC02Pres(sz.apex)
+				for _, rc := range sz.nsecChain() {
+					rc.note = "sibling"
+					recsN = append(recsN, rc)
+					genuine = append(genuine, false)
+					signedBy = append(signedBy, 1)
+					polluted = "sibling-signed"
+				}
+			default: // an in-zone record without any signature: a genuine one, or a made-up interval
+				if len(recsN) > 0 && r.Intn(2) == 0 {
+					signedBy[r.Intn(len(recsN))] = 2
+					polluted = "unsigned"
+				} else {
+					a, b := cands[r.Intn(len(cands))], cands[r.Intn(len(cands))]
+					if !owned(a) && vC02Sub(a, z.apex) && vC02Sub(b, z.apex) {
+						recsN = append(recsN, vC02Rec{owner: a, next: b, types: []uint16{dns.TypeA, dns.TypeRRSIG, dns.TypeNSEC}, class: 1, note: "made-up"})
+						genuine = append(genuine, false)
+						signedBy = append(signedBy, 2)
+						polluted = "unsigned-made-up"
+					}
+				}
+			}
+		}
+		r.Shuffle(len(recsN), func(i, j int) {
+			recsN[i], recsN[j] = recsN[j], recsN[i]
+			genuine[i], genuine[j] = genuine[j], genuine[i]
+			signedBy[i], signedBy[j] = signedBy[j], signedBy[i]
+		})
 		for _, rc := range recsN {
 			rrs = append(rrs, rc.rr())
 		}
@@ -184,23 +254,43 @@ func vC02AuthCase(t *testing.T, tr *vC02Trace, g *vC02Gen, zin *vC02Zone, useNSE
 	rrs = vC02RoundTrip(rrs)
 	// one RRSIG per record; records sharing an owner form one RRset and are signed together
 	byOwner := map[string][]dns.RR{}
+	ownerSig := map[string]int{}
 	var order []string
-	for _, rr := range rrs {
+	for i, rr := range rrs {
 		k := strings.ToLower(rr.Header().Name)
 		if _, ok := byOwner[k]; !ok {
 			order = append(order, k)
+			if signedBy != nil {
+				ownerSig[k] = signedBy[i]
+			}
 		}
 		byOwner[k] = append(byOwner[k], rr)
+	}
+	var fkey *dns.DNSKEY
+	var fpriv crypto.PrivateKey
+	if foreignZone != "" {
+		fkey, fpriv = randomQZoneKey(t, foreignZone)
 	}
 	var denial []dns.RR
 	denial = append(denial, soa, soaSig)
 	for _, k := range order {
 		denial = append(denial, byOwner[k]...)
-		denial = append(denial, randomQSignRRSet(t, key, priv, byOwner[k]))
+		switch ownerSig[k] {
+		case 0:
+			denial = append(denial, randomQSignRRSet(t, key, priv, byOwner[k]))
+		case 1:
+			denial = append(denial, randomQSignRRSet(t, fkey, fpriv, byOwner[k]))
+		}
 	}
+	// judged: everything the zone's key signed is a genuine record (what others signed, or nobody, is arbitrary)
 	allGenuine := true
-	for _, gq := range genuine {
-		allGenuine = allGenuine && gq
+	foreignInZone := false
+	for i, gq := range genuine {
+		if signedBy == nil || signedBy[i] == 0 {
+			allGenuine = allGenuine && gq
+		} else if dnsutil.NameInZone(strings.ToLower(rrs[i].Header().Name), zoneStr) {
+			foreignInZone = true
+		}
 	}
 	filtered := dnsutil.FilterRRsToZone(rrs, zoneStr)
 	var kept []int
@@ -276,6 +366,9 @@ func vC02AuthCase(t *testing.T, tr *vC02Trace, g *vC02Gen, zin *vC02Zone, useNSE
 		how := z.existsHow(q)
 		ndTrue := z.nodataTrue(q, qtype)
 		truth := (rcode == dns.RcodeNameError && how == "") || (rcode == dns.RcodeSuccess && ndTrue)
+		if foreignInZone && !cd && err == nil && goFail == "" {
+			goFail = fmt.Sprintf("Resolver.authority accepted the response for %s although it carries an RRset inside %s without a verifying signature of the zone (%s)", qs, zoneStr, polluted)
+		}
 		if allGenuine && goFail == "" {
 			switch {
 			case err == nil && ad && !truth:
@@ -315,7 +408,14 @@ func vC02AuthCase(t *testing.T, tr *vC02Trace, g *vC02Gen, zin *vC02Zone, useNSE
 		for _, rc := range recsN {
 			rcoq = append(rcoq, rc.coq())
 		}
-		coq = fmt.Sprintf("(CaseAuthNsec %s %s [%s] %s [%s])%%N", z.coq(), vC02Coq(z.apex), strings.Join(rcoq, ";"), vC02CoqInts(kept), strings.Join(pcoq, ";"))
+		var scoq []string
+		for i := range recsN {
+			scoq = append(scoq, fmt.Sprint(signedBy[i] == 0))
+			if signedBy[i] != 0 {
+				rdesc[i] += fmt.Sprintf("  [%s: signedBy=%d]", recsN[i].note, signedBy[i])
+			}
+		}
+		coq = fmt.Sprintf("(CaseAuthNsec %s %s [%s] [%s] %s [%s])%%N", z.coq(), vC02Coq(z.apex), strings.Join(rcoq, ";"), strings.Join(scoq, ";"), vC02CoqInts(kept), strings.Join(pcoq, ";"))
 	}
 	if polluted != "" {
 		k += "+" + polluted
